@@ -73,6 +73,8 @@ def complete_refs(names):
             need |= {'A', 'B'}
         if n == 'F':
             need.add('A')
+    if 'P' in names and 'L' not in names:
+        return False       # Gfa(text) validates the document: a path needs its links
     return need <= segs
 
 
